@@ -33,7 +33,7 @@ func (c *slowCloseConn) Close() error {
 // (its Wait returns once, within the watchdog), tags on the wire must be unique, Close must
 // return. Run natively and (by bin/check) under the race detector.
 func runC13(h *H) {
-	h.Rule("one imapclient.Client shared by 2..8 goroutines issuing NOOP, STATUS, LIST (streamed), FETCH with a body literal (streamed), SEARCH (with non-ASCII criteria, so that the enabled set is consulted), APPEND (literal-bearing), ENABLE, IDLE (every third one refused by the server), UNAUTHENTICATE followed by LOGIN, concurrently with a goroutine calling State/Caps/Mailbox and reading the fields of the returned mailbox snapshot while unilateral EXISTS/EXPUNGE/FLAGS arrive, and with the connection ended at a random moment by the server (close) or by the caller (Client.Close); in half of the runs the connection's Close takes 1-4 ms (30 ms when combined with the stop-after-error mode), so that commands are submitted while the client is tearing down; in half of the runs every goroutine stops after its first failed command and one more attempt (so that no later failing write rescues a command orphaned by the teardown). Oracle: every Wait returns exactly once within the watchdog, with an error if the command had not completed; tags received by the server are pairwise distinct; Close returns; the same run under the Go race detector must report no race whose stack involves imapclient or internal/imapwire. Non-trivial = the run ended the connection while commands were in flight; distinct by seed.")
+	h.Rule("one imapclient.Client shared by 2..8 goroutines issuing NOOP, STATUS, LIST (streamed), FETCH with a body literal (streamed), SEARCH (with non-ASCII criteria, so that the enabled set is consulted), APPEND (literal-bearing), ENABLE, IDLE (every third one refused by the server), UNAUTHENTICATE followed by LOGIN, concurrently with a goroutine calling State/Caps/Mailbox and reading the fields of the returned mailbox snapshot while unilateral EXISTS/EXPUNGE/FLAGS arrive, and with the connection ended at a random moment by the server (close) or by the caller (Client.Close); in half of the runs the connection's Close takes 1-4 ms (30 ms when combined with the stop-after-error mode), so that commands are submitted while the client is tearing down; in half of the runs every goroutine stops after its first failed command and one more attempt (so that no later failing write rescues a command orphaned by the teardown). Targeted: 2 goroutines in Idle/Close/Wait loops against 2 in Append loops (synchronising literal) on a connection that stays up — all 240 operations must complete. Oracle: every Wait returns exactly once within the watchdog, with an error if the command had not completed; tags received by the server are pairwise distinct; Close returns; the same run under the Go race detector must report no race whose stack involves imapclient or internal/imapwire. Non-trivial = the run ended the connection while commands were in flight; distinct by seed.")
 	// targeted: one command submitted while the client is tearing down after the server went
 	// away, with a slow connection Close and nobody else around to fail a write later
 	for k := 0; k < h.Pick(20, 100); k++ {
@@ -81,6 +81,69 @@ func runC13(h *H) {
 		if h.failed("completion-missing") {
 			break
 		}
+	}
+
+	// targeted: commands that wait for a continuation request (IDLE, AUTHENTICATE-like) against
+	// literal-bearing commands (APPEND, which waits for "+" too), on a connection that stays up:
+	// nobody's failing write or connection loss comes to the rescue, every command must complete
+	for k := 0; k < h.Pick(6, 40) && !h.failed("completion-missing:idle-vs-append"); k++ {
+		desc := map[string]interface{}{"scenario": "idle-vs-append", "round": k}
+		h.InFlight(desc)
+		peer := newPeer("* OK [CAPABILITY IMAP4rev1 IDLE] ready\r\n")
+		var idleTag string
+		peer.OnCommand = func(p *scriptedPeer, c *peerCmd) {
+			switch {
+			case c.Name == "IDLE":
+				idleTag = c.Tag
+				p.Send("+ idling\r\n")
+			case c.Tag == "DONE":
+				p.Send(idleTag + " OK done\r\n")
+			default:
+				p.Send(c.Tag + " OK done\r\n")
+			}
+		}
+		client, _ := peer.dialClient(nil)
+		if err := client.WaitGreeting(); err != nil {
+			h.Fail("greeting", err.Error(), desc)
+			peer.Close()
+			continue
+		}
+		var wg sync.WaitGroup
+		var nDone int64
+		const perG = 60
+		for g := 0; g < 4; g++ {
+			wg.Add(1)
+			go func(g int) {
+				defer wg.Done()
+				for i := 0; i < perG; i++ {
+					if g%2 == 0 {
+						ic, err := client.Idle()
+						if err != nil {
+							return
+						}
+						ic.Close()
+						ic.Wait()
+					} else {
+						ac := client.Append("INBOX", 5, nil)
+						ac.Write([]byte("hello"))
+						ac.Close()
+						ac.Wait()
+					}
+					atomic.AddInt64(&nDone, 1)
+				}
+			}(g)
+		}
+		if !withTimeout(6*time.Second, wg.Wait) {
+			desc["completed"] = atomic.LoadInt64(&nDone)
+			h.Fail("completion-missing:idle-vs-append", fmt.Sprintf("2 goroutines calling Idle/Close/Wait and 2 calling Append (5-byte synchronising literal) on one healthy connection: only %d of %d operations completed, the rest never returned (a \"+\" meant for one command was handed to another)", atomic.LoadInt64(&nDone), 4*perG), desc)
+		}
+		withTimeout(3*time.Second, func() { client.Close() })
+		for _, v := range peer.Violations() {
+			h.Fail("literal-sync-violated:idle-vs-append", v, desc)
+		}
+		peer.Close()
+		h.Eval(fmt.Sprintf("idle-vs-append-%d", k))
+		h.Hist("scenario:idle-vs-append")
 	}
 
 	iters := h.Pick(60, 600)
